@@ -1551,6 +1551,37 @@ impl<'a> Lifter<'a> {
             }
             return unsupported("collect", whole);
         }
+        // `b.then(|| e)` / `b.then_some(e)`: if b { Some(e) } else { None }
+        if (name == "then" || name == "then_some") && m.args.len() == 1 {
+            let recv = self.expr(&m.receiver)?;
+            if recv.ty == "bool" {
+                let body = if name == "then" {
+                    let syn::Expr::Closure(cl) = &m.args[0] else { return unsupported("bool::then argument", whole) };
+                    if !cl.inputs.is_empty() {
+                        return unsupported("bool::then closure arity", whole);
+                    }
+                    self.scoped(&cl.body)?
+                } else {
+                    self.expr(&m.args[0])?
+                };
+                return Ok(v(format!("(if {} {{ Some({}) }} else {{ None }})", recv.text, body.text), &format!("Option<{}>", body.ty)));
+            }
+        }
+        // L22: `xs.iter().any(|x| p)` / `.all(|x| p)` on an array: bounded quantifier over the index
+        if (name == "any" || name == "all") && m.args.len() == 1 {
+            let recv = self.expr(&m.receiver)?;
+            if recv.ty == "RArr" {
+                let (pn, body) = self.closure1(&m.args[0], "real")?;
+                self.note("L22", whole.span(), "any/all over an array lifted to a bounded quantifier");
+                let q = if name == "any" {
+                    format!("(exists|i__: int| 0 <= i__ < {0}.len && {{ let {pn} = #[trigger] ({0}.at)(i__); {1} }})", recv.text, body.text)
+                } else {
+                    format!("(forall|i__: int| 0 <= i__ < {0}.len ==> {{ let {pn} = #[trigger] ({0}.at)(i__); {1} }})", recv.text, body.text)
+                };
+                return Ok(v(q, "bool"));
+            }
+            return unsupported("any/all on a non-array", whole);
+        }
         let recv = self.expr(&m.receiver)?;
         let mut args = Vec::new();
         for a in &m.args {
